@@ -298,3 +298,106 @@ fn opt_ttl_parse_side() {
     let rc = OPT::extract_rcode_from_ttl(ttl, &h);
     assert!(rc == RCODE::from(((e as u16) << 4) | lo));
 }
+
+// ================================================================ C17: textual name API  (BOUNDED harnesses, bounds stated per harness)
+fn alnum(c: u8) -> bool { (48..=57).contains(&c) || (65..=90).contains(&c) || (97..=122).contains(&c) }
+
+// label grammar, all byte strings of length 0..=65 (lengths > 63 take the loop-free early return): BOUNDED by length 65
+#[kani::proof]
+#[kani::unwind(67)]
+fn label_grammar_le65() {
+    const N: usize = 65;
+    let buf: [u8; N] = kani::any();
+    let n: usize = kani::any();
+    kani::assume(n <= N);
+    let d = &buf[..n];
+    let got = Label::new(d).is_ok();
+    // reference (property text): 1-63 chars, starts with letter/digit/underscore, continues with letters/digits/hyphens/
+    // underscores, ends with letter or digit
+    let mut want = n >= 1 && n <= 63;
+    if want {
+        want = (alnum(d[0]) || d[0] == b'_') && alnum(d[n - 1]);
+        let mut i = 1;
+        while i < n {
+            if !(alnum(d[i]) || d[i] == b'-' || d[i] == b'_') { want = false; }
+            i += 1;
+        }
+    }
+    assert!(got == want);
+}
+
+// suffix algebra on fixed shapes: names of NA and NB one-byte labels with symbolic bytes: BOUNDED (NA, NB <= 3, 1-byte labels)
+macro_rules! suffix_shape {
+    ($h:ident, $na:expr, $nb:expr) => {
+        #[kani::proof]
+        #[kani::unwind(6)]
+        fn $h() {
+            const NA: usize = $na; const NB: usize = $nb;
+            let ra: [u8; 3] = kani::any();
+            let rb: [u8; 3] = kani::any();
+            let sa = [[ra[0]], [ra[1]], [ra[2]]];
+            let sb = [[rb[0]], [rb[1]], [rb[2]]];
+            let la = [Label::new_unchecked(&sa[0][..]), Label::new_unchecked(&sa[1][..]), Label::new_unchecked(&sa[2][..])];
+            let lb = [Label::new_unchecked(&sb[0][..]), Label::new_unchecked(&sb[1][..]), Label::new_unchecked(&sb[2][..])];
+            let a = Name::new_with_labels(&la[..NA]);
+            let b = Name::new_with_labels(&lb[..NB]);
+            // reference: strictly longer and ends with the other's labels
+            let mut want = NA > NB;
+            let mut i = 0;
+            while i < NB {
+                if NA > NB && ra[NA - NB + i] != rb[i] { want = false; }
+                i += 1;
+            }
+            assert!(a.is_subdomain_of(&b) == want);
+            match a.without(&b) {
+                Some(rest) => {
+                    assert!(want);
+                    let keep = NA.saturating_sub(NB);
+                    assert!(rest.get_labels().len() == keep);
+                    let mut k = 0;
+                    while k < keep { assert!(rest.get_labels()[k] == la[k]); k += 1; }
+                }
+                None => assert!(!want),
+            }
+        }
+    };
+}
+suffix_shape!(suffix_0_0, 0, 0); suffix_shape!(suffix_1_0, 1, 0); suffix_shape!(suffix_0_1, 0, 1); suffix_shape!(suffix_1_1, 1, 1);
+suffix_shape!(suffix_2_1, 2, 1); suffix_shape!(suffix_1_2, 1, 2); suffix_shape!(suffix_2_2, 2, 2); suffix_shape!(suffix_3_1, 3, 1);
+suffix_shape!(suffix_3_2, 3, 2); suffix_shape!(suffix_2_3, 2, 3); suffix_shape!(suffix_3_3, 3, 3); suffix_shape!(suffix_3_0, 3, 0);
+suffix_shape!(suffix_2_0, 2, 0); suffix_shape!(suffix_0_2, 0, 2); suffix_shape!(suffix_0_3, 0, 3); suffix_shape!(suffix_1_3, 1, 3);
+
+// link-local: last label of length 4, 5 or 6 with symbolic bytes, one label before it: BOUNDED by these shapes
+macro_rules! link_local_shape {
+    ($h:ident, $n:expr) => {
+        #[kani::proof]
+        #[kani::unwind(8)]
+        fn $h() {
+            const N: usize = $n;
+            let last: [u8; N] = kani::any();
+            let first: [u8; 1] = kani::any();
+            let two: bool = kani::any();
+            let ls = [Label::new_unchecked(&first[..]), Label::new_unchecked(&last[..])];
+            let name = if two { Name::new_with_labels(&ls[..]) } else { Name::new_with_labels(&ls[1..]) };
+            let mut want = N == 5;
+            if want {
+                let w = b"local";
+                let mut i = 0;
+                while i < 5 {
+                    let c = if last[i] >= b'A' && last[i] <= b'Z' { last[i] + 32 } else { last[i] };
+                    if c != w[i] { want = false; }
+                    i += 1;
+                }
+            }
+            assert!(name.is_link_local() == want);
+        }
+    };
+}
+link_local_shape!(link_local_4, 4); link_local_shape!(link_local_5, 5); link_local_shape!(link_local_6, 6);
+
+#[kani::proof]
+#[kani::unwind(2)]
+fn link_local_root() {
+    let name = Name::new_with_labels(&[]);
+    assert!(!name.is_link_local());
+}
